@@ -17,18 +17,22 @@ import shutil
 import sys
 from pathlib import Path
 
-from .. import common, fsmon, genrun
+import os
+
+from .. import common, fsmon, genrun, stracemon
 from ..common import Ctx
 
 LEVEL = "fault_enumeration"
 SHARDS = {"quick": 16, "thorough": 16}
 FLOOR = {"quick": 300, "thorough": 5000}
 REQUIRED_COUNTERS = ["runs", "stage_faults_fired", "line_failpoints_fired", "write_faults_fired", "fs_events_observed",
-                     "snapshots_compared", "noforce_runs", "force_runs", "fault_free_runs", "line_failpoints_enumerated"]
+                     "snapshots_compared", "noforce_runs", "force_runs", "fault_free_runs", "line_failpoints_enumerated",
+                     "postprocess_cli_runs", "postprocess_child_processes_traced", "postprocess_syscalls_parsed"]
 RULE = ("configurations = 4 layouts x existing tree {equal, different, partial, interrupted (no client.py), core edited, core partial} x force {off, on}; per configuration: fault-free run, "
         "every stage x {entry, exit}, every k-th write failing with ENOSPC, and LINE failpoints at the statements executed by the fault-free "
         "run (quick: every 6th, thorough: all); case = (configuration, fault); non-trivial = the fault point fired (or, fault-free, >=1 fs event)")
-ASSUMPTIONS = ["post-processing children (ruff/mypy) are not run; the post-processing stage is failed at entry",
+ASSUMPTIONS = ["in the fault-injection runs post-processing children (ruff) are not run, the stage is failed at entry; the fault-free "
+               "command-line runs with post-processing ON are traced with strace -f (syscall level, children included)",
                "for LINE failpoints (synthetic exceptions that may land inside the generator's own try blocks) only the effect oracles "
                "(untouched / contained) are applied; the outcome is recorded"]
 
@@ -293,6 +297,130 @@ def one_run(ctx: Ctx, tmpl: Path, layout: str, existing: str, force: bool, fault
     return {"outcome": outcome, "events": len(events), "writes": writes_seen, "fired": fired}
 
 
+# ---------------------------------------------------------------------------------------------------------------------
+# Post-processing ON, through the real command line, children traced at syscall level.
+# The documented invocation is `pyopenapi-gen spec --project-root . --output-package pkg`: the working directory IS the
+# project root, and the post-processing stage runs `python -m ruff ...` three times as child processes. What those children
+# create is invisible to an in-process audit hook, so the whole process tree runs under `strace -f -y` (vmon/stracemon.py)
+# and the same two oracles are applied to the syscall log and to before/after snapshots.
+
+CLI_WRAP = ("import sys, pathlib, pyopenapi_gen; src = sys.argv.pop(1); "
+            "assert pathlib.Path(pyopenapi_gen.__file__).resolve().is_relative_to(src), pyopenapi_gen.__file__; "
+            "from pyopenapi_gen.cli import app; sys.argv[0] = 'pyopenapi-gen'; app()")
+
+
+def cli_cmd(spec: Path, root_arg: str, pkg: str, core: str | None, force: bool, postprocess: bool = True) -> list[str]:
+    cmd = [common.PY, "-c", CLI_WRAP, str(common.REPO_SRC), str(spec), "--project-root", root_arg, "--output-package", pkg]
+    if core:
+        cmd += ["--core-package", core]
+    if force:
+        cmd.append("--force")
+    if not postprocess:
+        cmd.append("--no-postprocess")
+    return cmd
+
+
+def cli_env(ctx: Ctx) -> dict:
+    env = {k: v for k, v in os.environ.items() if not k.startswith("PYTHON") and k != common.GUARD}
+    env.update(PYTHONPATH=str(common.REPO_SRC), PYTHONDONTWRITEBYTECODE="1", PYTHONHASHSEED="0", TMPDIR=ctx.scratch.tmpdir(),
+               NO_COLOR="1")
+    for k in ("RUFF_NO_CACHE", "RUFF_CACHE_DIR"):
+        env.pop(k, None)
+    return env
+
+
+def pp_template(ctx: Ctx, layout: str, existing: str) -> Path:
+    """A project root whose existing output was produced WITH post-processing (from a neutral working directory)."""
+    import subprocess
+
+    pkg, core = LAYOUTS[layout]
+    root = ctx.scratch.new(f"pptmpl-{layout}-{existing}")
+    seed_sentinels(root, pkg, core)
+    if existing != "absent":
+        neutral = ctx.scratch.new("neutral-cwd")
+        spec = neutral / "old.json"
+        spec.write_text(json.dumps(doc(1) if existing == "different" else doc(0)))
+        r = subprocess.run(cli_cmd(spec, str(root), pkg, core, True), cwd=str(neutral), env=cli_env(ctx), capture_output=True, text=True, timeout=600)
+        if r.returncode != 0:
+            raise RuntimeError(f"post-processed template generation failed: {r.stderr[-600:]}")
+        out_dir = root.joinpath(*pkg.split("."))
+        (out_dir / "notes_by_hand.txt").write_text("user notes inside the output package\n")
+        if existing == "partial":
+            (out_dir / "models" / "order.py").unlink()
+    return root
+
+
+def pp_run(ctx: Ctx, layout: str, existing: str, force: bool, cwd_mode: str) -> None:
+    rec = ctx.rec
+    pkg, core = LAYOUTS[layout]
+    tmpl = pp_template(ctx, layout, existing)
+    work = ctx.scratch.new("pprun")
+    root = work / "proj"
+    shutil.copytree(tmpl, root, symlinks=True)
+    spec = work / "cur.json"
+    spec.write_text(json.dumps(doc(0)))
+    case = {"scenario": "postprocess_cli", "layout": layout, "existing": existing, "force": force, "cwd": cwd_mode}
+    feats = ["postprocess_on", f"layout_{layout}", f"existing_{existing}", "force" if force else "noforce", f"cwd_{cwd_mode}"]
+    if cwd_mode == "root":
+        cwd, root_arg = root, "."
+    else:
+        cwd, root_arg = work / "elsewhere", str(root)
+        cwd.mkdir()
+    before = fsmon.snapshot(root)
+    try:
+        t = stracemon.run(cli_cmd(spec, root_arg, pkg, core, force), cwd, cli_env(ctx), work / "strace.log", timeout=900)
+    except Exception as e:  # strace missing / ptrace refused / timeout: nothing was observed
+        rec.inconclusive.append(f"postprocess scenario could not be traced: {type(e).__name__}: {e}"[:300])
+        return
+    after = fsmon.snapshot(root)
+    rec.count("postprocess_cli_runs")
+    rec.count("runs")
+    rec.count("snapshots_compared")
+    rec.count("postprocess_child_processes_traced", max(0, len(t.pids) - 1))
+    rec.count("postprocess_syscalls_parsed", t.calls)
+    rec.count("postprocess_log_lines_unparsed", t.unparsed)
+    rs = str(root)
+    eff = [(k, p) for k, p, _ in t.events if p == rs or p.startswith(rs + "/")]
+    rec.count("postprocess_fs_events_under_project_root", len(eff))
+    rec.count("fs_events_observed", len(t.events))
+    outcome = "ok" if t.returncode == 0 else ("raise" if t.returncode == 1 and "Generation failed" in t.stderr else f"exit{t.returncode}")
+    rec.seen("outcomes", f"postprocess/{'force' if force else 'noforce'}/{existing}/{cwd_mode}: {outcome}")
+    rec.case(case, nontrivial=len(t.pids) > 1)
+    if len(t.pids) <= 1:
+        rec.inconclusive.append("postprocess scenario: no child process was traced (post-processing did not run?)")
+    out_exists = existing != "absent"
+    if not force and out_exists:
+        for k, p in eff:
+            rec.violation(f"noforce:postprocess:fs_event_under_project_root:{k}", feats, case, f"{k} {p[len(rs) + 1:]}")
+        d = fsmon.snapshot_diff(before, after)
+        if d:
+            rec.violation("noforce:postprocess:tree_changed", feats, case, "; ".join(d[:5]))
+    for k, p in eff:
+        if not allowed(p, root, pkg, core):
+            rec.violation(f"containment:postprocess:{k}_outside_output_and_core", feats, case, f"{k} {p[len(rs) + 1:]}")
+    for rel in sorted(set(before) | set(after)):
+        if not allowed(str(root / rel), root, pkg, core) and before.get(rel) != after.get(rel):
+            rec.violation("containment:postprocess:sentinel_changed", feats, case, f"{rel}: {before.get(rel)} -> {after.get(rel)}")
+    want_ok = force or existing in ("equal", "absent")
+    if want_ok and outcome != "ok":
+        rec.violation(f"outcome:postprocess:fault_free_run_fails:{existing}", feats, case, f"{outcome}: {t.stderr[-400:]}")
+    if not want_ok and outcome == "ok":
+        rec.violation(f"outcome:postprocess:difference_reported_as_success:{existing}", feats, case, outcome)
+    if outcome.startswith("exit"):
+        rec.violation("outcome:postprocess:command_line_crashed", feats, case, f"{outcome}: {t.stderr[-600:]}")
+    if len(rec.samples) < 3:
+        rec.sample({"scenario": case, "exit": t.returncode, "processes": len(t.pids), "syscalls": t.calls,
+                    "events_under_project_root": sorted({f"{k} {p[len(rs) + 1:]}" for k, p in eff})[:12]})
+
+
+def pp_configs(quick: bool) -> list[tuple[str, str, bool, str]]:
+    if quick:
+        return [("embedded", "equal", False, "root"), ("embedded", "different", False, "root"), ("embedded", "absent", False, "root"),
+                ("sibling", "equal", True, "root"), ("sibling", "equal", False, "root"), ("prefix_sibling", "different", False, "root"),
+                ("nested_core", "equal", False, "elsewhere"), ("nested_core", "absent", True, "root")]
+    return [(l, e, f, c) for l in LAYOUTS for e in ("absent", "equal", "different", "partial") for f in (False, True) for c in ("root", "elsewhere")]
+
+
 def run_shard(ctx: Ctx) -> None:
     common.use_repo()
     genrun.quiet()
@@ -320,6 +448,10 @@ def run_shard(ctx: Ctx) -> None:
         if len(ctx.rec.samples) < 2:
             ctx.rec.sample({"configuration": [layout, existing, force], "fault_free": base, "line_points": len(points),
                             "example_points": points[:3]})
+    # post-processing ON through the command line, traced at syscall level (spread over the shards, last shards first)
+    for i, (layout, existing, force, cwd_mode) in enumerate(pp_configs(ctx.quick)):
+        if ctx.mine(ctx.nshards - 1 - i % ctx.nshards):
+            pp_run(ctx, layout, existing, force, cwd_mode)
     # first-run containment (no existing output): one fault-free run per layout on shard 0
     if ctx.shard == 0:
         for layout in LAYOUTS:
@@ -334,5 +466,8 @@ def replay(ctx: Ctx, file: dict) -> None:
     lines = LinePoints(stages)
     fsmon.MON.install()
     c = file["case"]
+    if c.get("scenario") == "postprocess_cli":
+        pp_run(ctx, c["layout"], c["existing"], c["force"], c["cwd"])
+        return
     tmpl, pkg, core = build_template(ctx, c["layout"], c["existing"])
     one_run(ctx, tmpl, c["layout"], c["existing"], c["force"], c["fault"], stages, lines)
